@@ -20,6 +20,7 @@ class Assembled:
         self.dropped = {}      # relpath -> [(kind, text)]
         self.linemap = []      # per generated line: (relpath or '<spec>' or '<wrap>', 'repo'|'injected')
         self.contracted = []
+        self.lemmas = []
         self.assumed = []
         self.edits = []        # (relpath, kind, note, new_text)
 
@@ -56,8 +57,9 @@ def _render_file(asm, src_root, relpath, apply_contracts, depth=0):
         new = '%s%smod %s {\n%suse vstd::prelude::*;\n%s\n%s\x00END:%s\x00\n%s}' % (m.group(1), vis, name, m.group(1), marker, body, child, m.group(1))
         fc.ed.replace(m.start(), m.end(), new, 'wrap', 'mod %s' % name)
     text, spans, pro_len = fc.render()
-    for (q, req, ens, kind) in fc.contracted:
-        asm.contracted.append((q, req, ens, kind))
+    asm.contracted.extend(fc.contracted)
+    for (nm, tags) in fc.lemmas:
+        asm.lemmas.append(dict(relpath=relpath, name=nm, tags=tags))
     asm.assumed.extend(fc.assumed)
     for (s, e, new, kind, note) in fc.ed.edits:
         if kind != 'wrap':
